@@ -172,6 +172,9 @@ static void run_scen(const scen_t *s)
     cs_watch(&tp->nb_tasks, sizeof(tp->nb_tasks), "nb_tasks");
     cs_watch(&tp->nb_pending_actions, sizeof(tp->nb_pending_actions), "nb_pending_actions");
     cs_watch(&tp->tdm.monitor, sizeof(tp->tdm.monitor), "tdm.monitor");
+#ifdef C10_REFCOUNT_STRICT
+    cs_watch(&tp->super.super.obj_reference_count, sizeof(tp->super.super.obj_reference_count), "obj_reference_count");
+#endif
     cs_body_t b[3] = { body, body, body }; void *a[3] = { (void *)0, (void *)1, (void *)2 };
     cs_run(s->nthreads, b, a);
     /* end of the execution: every token has been given back and ready() was called */
@@ -180,6 +183,9 @@ static void run_scen(const scen_t *s)
              cb_count == 0 ? "never reported" : "reported more than once", tp->tdm.monitor, tp->nb_tasks, tp->nb_pending_actions);
     CS_CHECK(M->taskpool_state(tp) == PARSEC_TERM_TP_TERMINATED, "callback ran but the final state is %d, not TERMINATED", (int)M->taskpool_state(tp));
     CS_CHECK(tp->nb_tasks == 0 && tp->nb_pending_actions == 0, "final counters non-zero: nb_tasks=%d nb_pending_actions=%d", tp->nb_tasks, tp->nb_pending_actions);
+#ifdef C10_REFCOUNT_STRICT   /* development aid: turn the side observation of NOTES.md into a failure to obtain a schedule */
+    CS_CHECK(!zero_release, "observation: the taskpool reference count reached 0 (release by the detecting thread before the retain of ready())");
+#endif
     polls[npolls] = 0;
     cs_observe("cb@T%d.%d(%s) polls=%s ret=[%s|%s|%s]%s%s", cb_thread, cb_step, cb_thread >= 0 ? onm[s->script[cb_thread][cb_step].op] : "-", polls,
                rets[0], rets[1], rets[2], retained_at_cb ? "" : " cb-before-retain", zero_release ? " REFCOUNT-HIT-ZERO" : "");
@@ -211,6 +217,11 @@ static const scen_t scen[] = {
         { {O_ADD_TASKS,1,1}, {O_ADD_TASKS,1,1}, {O_DONE_ACTION,0,0}, E },
         { {O_TAKE_TASK,0,0}, {O_DONE_TASK,0,0}, E },
         { {O_TAKE_TASK,0,0}, {O_DONE_TASK,0,0}, E } } },
+    /* two-thread version of the above (the only zero-crossing script of the quick tier) */
+    { "busy_zero_crossings_2t", 1, {0,0,0}, {1,0,0}, 2, {
+        { {O_ADD_TASKS,1,1}, {O_ADD_TASKS,1,1}, {O_DONE_ACTION,0,0}, E },
+        { {O_TAKE_TASK,0,0}, {O_DONE_TASK,0,0}, {O_TAKE_TASK,0,0}, {O_DONE_TASK,0,0}, E },
+        { E } } },
     /* ready() races with the last task completion, a third thread polls the state */
     { "ready_vs_last_task_polled", 0, {0,1,0}, {0,0,0}, 3, {
         { {O_READY,0,0}, E },
@@ -272,15 +283,16 @@ static const scen_t scen[] = {
 };
 #define NSCEN ((int)(sizeof(scen) / sizeof(scen[0])))
 #define R(i) static void run_##i(void) { run_scen(&scen[(i) < NSCEN ? (i) : 0]); }
-R(0) R(1) R(2) R(3) R(4) R(5) R(6) R(7) R(8) R(9)
-static void (*runners[])(void) = { run_0, run_1, run_2, run_3, run_4, run_5, run_6, run_7, run_8, run_9 };
-static cs_scenario_t scenarios[10];
+R(0) R(1) R(2) R(3) R(4) R(5) R(6) R(7) R(8) R(9) R(10) R(11)
+static void (*runners[])(void) = { run_0, run_1, run_2, run_3, run_4, run_5, run_6, run_7, run_8, run_9, run_10, run_11 };
+static cs_scenario_t scenarios[12];
 static void setup(void)
 {   /* one-time lazy initialisation of the class system outside the controlled runs */
     parsec_taskpool_t *t = calloc(1, sizeof(*t)); PARSEC_OBJ_CONSTRUCT_WRELEASE(t, parsec_taskpool_t, my_release);
 }
 /* scenarios that only the thorough tier runs (same shapes as others, kept out of the quick tier for its time budget) */
-static const char *thorough_only[] = { "ptg_add_then_ready", "actions_fanout", "set_runtime_actions0_vs_ready", "set_runtime_actions_then_release", "dtd_insert_then_ready", NULL };
+static const char *thorough_only[] = { "ptg_startup_spawn", "ptg_add_then_ready", "busy_zero_crossings", "actions_fanout", "set_runtime_actions0_vs_ready",
+                                       "set_runtime_actions_then_release", "dtd_insert_then_ready", "set_nb_tasks_owner", NULL };
 int main(int argc, char **argv)
 {
     int quick = getenv("C10_QUICK") && atoi(getenv("C10_QUICK")), n = 0;
